@@ -1300,6 +1300,7 @@ func (l *Loop) decode(d *decoder) {
 		l.vertices[i].Y = d.readFloat64()
 		l.vertices[i].Z = d.readFloat64()
 	}
+	d.checkUnitLength(l.vertices)
 	l.index = NewShapeIndex()
 	l.originInside = d.readBool()
 	l.depth = int(d.readUint32())
